@@ -27,13 +27,6 @@ structure St where
   slots : Nat := 6
   seqKind : Bool := false -- array / seg: Clear(false) frees nothing
 
-def chunk (sizes : Nat → Nat) : Nat → Nat → List Elem → List (List Elem)
-  | 0, _, _ => []
-  | fuel + 1, seg, xs =>
-    if xs.isEmpty then [] else
-    let n := max 1 (sizes seg)
-    xs.take n :: chunk sizes fuel (seg + 1) (xs.drop n)
-
 def mkKind (args : List String) : Kind :=
   let kind := kv args "kind" "hash"
   let f : Momo.Seg.Func := if kv args "seg" "cnst" == "sqrt" then .sqrt else .cnst
@@ -45,10 +38,9 @@ def mkKind (args : List String) : Kind :=
     movable := kv args "mov" "1" == "1",
     arrayStyle := kind == "array",
     rebuild := match kind with
-      | "tree" => fun ls => ls
-      -- SegmentedArray(const SegmentedArray&): pvIncCapacity(0, count) then AddBackNogrow: the pointer array + full segments
-      | "seg" => fun ls => [] :: chunk (Momo.Seg.itemCount f l0) (ls.flatten.length + 1) 0 ls.flatten
-      | _ => fun ls => [ls.flatten] }
+      | "tree" => rebuildSame
+      | "seg" => rebuildSeg (Momo.Seg.itemCount f l0)
+      | _ => rebuildOne }
 
 def init (args : List String) : St :=
   let selAdd := nat! (kv args "sel" "0")
